@@ -289,6 +289,7 @@ def impl_run(case):
     im = Impl(case.get('pre', False))
     steps = im.run_script(case['script'])
     hist = [im.mop(m) for m in case.get('hist', [])]
+    late = im.run_script(case.get('late', []))
     q = case['q']
     if q['k'] == 'op':
         res = im.mop(q['o'])
@@ -305,7 +306,12 @@ def impl_run(case):
         for c in q['clss']:
             cls = im.classes.get(c)
             cs.append(None if cls is None else [u.symbol for u in cls.units()])
-        res = {'k': 'dir', 'us': us, 'cs': cs}
+        # the factories on an amount-and-symbol string: type of the instance
+        ps = []
+        for s in q['syms']:
+            ob = W.guarded(lambda: quantity.Quantity('1 ' + s))
+            ps.append(ob['cls'] if ob['k'] == 'qty' else ob.get('e'))
+        res = {'k': 'dir', 'us': us, 'cs': cs, 'parse': ps}
     elif q['k'] == 'mk':
         n, u = W.number(tuple(q['n'])), im.units.get(q['u'])
         if q.get('via'):
@@ -315,7 +321,7 @@ def impl_run(case):
             res = W.guarded(lambda: im.q.Quantity(n, u))
     else:
         raise ValueError(q['k'])
-    return {'steps': steps, 'hist': hist, 'res': res}
+    return {'steps': steps, 'hist': hist, 'late': late, 'res': res}
 
 
 # ------------------------------------------------------------------ model side
@@ -327,7 +333,8 @@ class Ids:
     def __init__(self, case):
         self.sym = {'': 0}
         self.cls = {'Quantity': 0}
-        self.script = (predefined_script() if case.get('pre') else []) + case['script']
+        self.script = (predefined_script() if case.get('pre') else []) + case['script'] \
+            + case.get('late', [])
 
     def s(self, sym):
         return self.sym.setdefault(sym, len(self.sym))
@@ -465,6 +472,8 @@ def coq_case(case, r):
     script = coq_script(ids)          # ids are assigned over prefix + own script
     npre = len(predefined_script()) if case.get('pre') else 0
     steps = ['None' if s is None else f"(Some {s['e']})" for s in r['steps']]
+    lsteps = ['None' if s is None else f"(Some {s['e']})" for s in r.get('late', [])]
+    nown = len(case['script'])
     q = case['q']
     if q['k'] == 'op':
         qt = f"(QOp {coq_mop(ids, q['o'])})"
@@ -476,8 +485,9 @@ def coq_case(case, r):
               f"{copt(q.get('via'), lambda c: cn(ids.c(c)))})")
     hist = clist([coq_mop(ids, m) for m in case.get('hist', [])])
     exp = coq_robs(ids, r['res'])
-    return (f"(mkRCase {case['dm']} {cbool(bool(case.get('pre')))} {clist(script[npre:])} "
-            f"{clist(steps)} {hist} {qt} {exp})")
+    return (f"(mkRCase {case['dm']} {cbool(bool(case.get('pre')))} "
+            f"{clist(script[npre:npre + nown])} {clist(steps)} {hist} "
+            f"{clist(script[npre + nown:])} {clist(lsteps)} {qt} {exp})")
 
 
 def coq_model_term(case, r):
